@@ -28,8 +28,8 @@ def profiles(tier):
     P = []
 
     def prof(name, lits, offs, lens, pads, segs, total, cfg, caps, sim=None):
-        P.append((name, "LitLens = %s\nRepOffs = %s\nRepLens = %s\nPads <- %s\nMaxSegs = %d\nMaxTotal = %d\nConfigs <- %s\nCapSels <- %s" % (
-            lits, offs, lens, pads, segs, total, cfg, caps), sim))
+        P.append((name, "LitLens = %s\nRepOffs = %s\nRepLens = %s\nPads <- %s\nMaxSegs = %d\nMaxTotal = %d\nConfigs <- %s\nCapSels %s %s" % (
+            lits, offs, lens, pads, segs, total, cfg, "=" if caps.startswith("{") else "<-", caps), sim))
 
     # every literal-run length / match length up to a few multiples of the length-encoding periods (LZ4: 15 + 255k,
     # Snappy: 60 / 256 / 64), not only the hand-picked boundaries
@@ -38,6 +38,13 @@ def profiles(tier):
     top = 560 if tier == "quick" else 1400
     prof("lit-sweep", rng(1, top), "{8}", "{64}", "PadNone", 2, top + 100, "CfgLz" if tier == "quick" else "CfgFew", "CapB")
     prof("len-sweep", "{20}", "{1, 8}", rng(4, top), "PadNone", 2, top + 100, "CfgLz" if tier == "quick" else "CfgFew", "CapB")
+    # every destination capacity from 0 to beyond the bound for small incompressible / short inputs (the region between
+    # "obviously too small" and the bound is where a relaxed pre-check meets an off-by-one in a per-run space check)
+    def caps(a, b):
+        return "{%s}" % ", ".join('"%d"' % k for k in range(a, b + 1))
+    prof("cap-sweep", "{15, 16, 24, 40, 100}", "{1}", "{4}", "PadNone", 1, 120, "CfgLz" if tier == "quick" else "CfgFew", caps(0, 140))
+    if tier != "quick":
+        prof("cap-sweep-270", "{255, 270, 300}", "{1}", "{4}", "PadNone", 1, 320, "CfgLz", caps(250, 340))
     if tier == "quick":
         prof("tiny", "{1, 12, 13, 14, 15, 16}", "{1}", "{11, 15}", "PadNone", 2, 64, "CfgAll", "CapAll")
         prof("boundary", "{1, 60, 61, 256, 257, 65536, 65537}", "{1, 8, 2047, 2048, 32768, 65535, 65536}",
